@@ -12,9 +12,15 @@
 (*            keeps receiving (and dropping) until the upstream closes     *)
 (*   fix      planner_from_fix.go FixPeriodPlanner / MatrixStepPlanner:    *)
 (*            receive until the upstream closes, forward, close            *)
+(*   hold     internal_planner ResponseOptimizerPlanner (and the in-process*)
+(*            aggregators): keeps everything it receives, an upstream error*)
+(*            entry included, and only when the upstream has closed sends  *)
+(*            it on as several messages in MAP ORDER - an error message can*)
+(*            come out BEFORE data messages                                *)
 (*   export   service/queryRangeService.go exportStreamsValue / matrix     *)
-(*            writer: on an error message write the error tail and RETURN  *)
-(*            WITHOUT draining its input; closes the response channel      *)
+(*            writer: on an error message write the error tail and return; *)
+(*            ExportDrainsOnError says whether it keeps receiving (drains) *)
+(*            its input so that the stages upstream can finish             *)
 (*   handler  controller: `for str := range ch { w.Write }`                *)
 (* Environment: the database delivers Rows rows, may fail at any row, the  *)
 (* request context may be cancelled at any time (client gone / limit).     *)
@@ -26,13 +32,16 @@ EXTENDS Integers, Sequences, FiniteSets, TLC
 CONSTANTS
     Shapes,     \* set of pipelines: sequences of stage kinds between scan and export, e.g. <<>>, <<"map">>, <<"limit","fix">>
     MaxRows,    \* the database has 0..MaxRows rows
-    FaultRows   \* the database may fail before delivering row k, k \in FaultRows (0 = no failure)
+    FaultRows,  \* the database may fail before delivering row k, k \in FaultRows (0 = no failure)
+    ExportDrainsOnError  \* TRUE: the exporter drains its input after an error message (the code since the fix recorded in
+                         \* known_findings.json); FALSE: it just returns (mutation: with a "hold" stage a goroutine stays blocked)
 
 VARIABLES
     shape, nrows, failAt,
     scanPos, scanSt,    \* rows delivered, "run" | "done"
     st,                 \* st[i]: state of intermediate stage i: "run" | "done"
     held,               \* held[i]: message a stage has received and must forward ("none" | "data" | "err")
+    bag,                \* bag[i]: what a "hold" stage keeps: [data |-> n, err |-> n]
     ch,                 \* ch[i]: message offered on the channel INTO stage i (i = 1..n+1; n+1 = export): "none"|"data"|"err"
     closed,             \* closed[i]: channel into stage i is closed
     drainer,            \* drainer[i]: a drainer goroutine consumes the channel into stage i
@@ -42,7 +51,7 @@ VARIABLES
     cancelled,          \* request context cancelled
     limitHit            \* the limit stage already cancelled
 
-vars == <<shape, nrows, failAt, scanPos, scanSt, st, held, ch, closed, drainer, expSt, resCh, resClosed, hSt, cancelled, limitHit>>
+vars == <<shape, nrows, failAt, scanPos, scanSt, st, held, bag, ch, closed, drainer, expSt, resCh, resClosed, hSt, cancelled, limitHit>>
 
 N == Len(shape)
 Stage == 1..N
@@ -52,6 +61,7 @@ Init ==
     /\ shape \in Shapes /\ nrows \in 0..MaxRows /\ failAt \in FaultRows
     /\ scanPos = 0 /\ scanSt = "run"
     /\ st = [i \in 1..Len(shape) |-> "run"] /\ held = [i \in 1..Len(shape) |-> "none"]
+    /\ bag = [i \in 1..Len(shape) |-> [data |-> 0, err |-> 0]]
     /\ ch = [i \in 1..(Len(shape) + 1) |-> "none"] /\ closed = [i \in 1..(Len(shape) + 1) |-> FALSE]
     /\ drainer = [i \in 1..(Len(shape) + 1) |-> FALSE]
     /\ expSt = "run" /\ resCh = "none" /\ resClosed = FALSE /\ hSt = "run"
@@ -67,19 +77,21 @@ ScanSend ==
            ELSE IF scanPos < nrows
              THEN ch' = [ch EXCEPT ![1] = "data"] /\ scanPos' = scanPos + 1 /\ UNCHANGED <<closed, scanSt>>
              ELSE ch' = [ch EXCEPT ![1] = "data"] /\ scanSt' = "closing" /\ UNCHANGED <<closed, scanPos>>   \* final EOF batch
-    /\ UNCHANGED <<shape, nrows, failAt, st, held, drainer, expSt, resCh, resClosed, hSt, cancelled, limitHit>>
+    /\ UNCHANGED <<shape, nrows, failAt, st, held, bag, drainer, expSt, resCh, resClosed, hSt, cancelled, limitHit>>
 
 \* after its last message was taken the scan goroutine closes the channel
 ScanClose ==
     /\ scanSt = "closing" /\ ch[1] = "none"
     /\ scanSt' = "done" /\ closed' = [closed EXCEPT ![1] = TRUE]
-    /\ UNCHANGED <<shape, nrows, failAt, scanPos, st, held, ch, drainer, expSt, resCh, resClosed, hSt, cancelled, limitHit>>
+    /\ UNCHANGED <<shape, nrows, failAt, scanPos, st, held, bag, ch, drainer, expSt, resCh, resClosed, hSt, cancelled, limitHit>>
 
 \* ---- intermediate stage i: receive from channel i
 StageRecv(i) ==
+    /\ shape[i] # "hold"
     /\ st[i] = "run" /\ held[i] = "none" /\ ch[i] # "none"
     /\ held' = [held EXCEPT ![i] = ch[i]]
     /\ ch' = [ch EXCEPT ![i] = "none"]
+    /\ UNCHANGED bag
     /\ UNCHANGED <<shape, nrows, failAt, scanPos, scanSt, st, closed, drainer, expSt, resCh, resClosed, hSt, cancelled, limitHit>>
 
 \* forward what was received to channel i+1 (blocks while the previous message was not taken)
@@ -89,6 +101,7 @@ StageSend(i) ==
          THEN UNCHANGED ch                                   \* past the limit: drop
          ELSE ch' = [ch EXCEPT ![i + 1] = held[i]]
     /\ held' = [held EXCEPT ![i] = "none"]
+    /\ UNCHANGED bag
     /\ IF shape[i] = "limit" /\ ~limitHit /\ held[i] = "data"
          THEN (\/ limitHit' = TRUE /\ cancelled' = TRUE        \* this message reached the limit: CancelCtx()
                \/ UNCHANGED <<limitHit, cancelled>>)
@@ -97,11 +110,12 @@ StageSend(i) ==
 
 \* the upstream channel is closed and drained: the stage finishes and closes its output
 StageFinish(i) ==
+    /\ shape[i] # "hold"
     /\ st[i] = "run" /\ held[i] = "none" /\ ch[i] = "none" /\ closed[i]
     /\ ch[i + 1] = "none"
     /\ st' = [st EXCEPT ![i] = "done"]
     /\ closed' = [closed EXCEPT ![i + 1] = TRUE]
-    /\ UNCHANGED <<shape, nrows, failAt, scanPos, scanSt, held, ch, drainer, expSt, resCh, resClosed, hSt, cancelled, limitHit>>
+    /\ UNCHANGED <<shape, nrows, failAt, scanPos, scanSt, held, bag, ch, drainer, expSt, resCh, resClosed, hSt, cancelled, limitHit>>
 
 \* a map stage hits an error of its own (e.g. a pipeline function fails): sends one error message,
 \* spawns a drainer for its upstream and returns
@@ -109,6 +123,7 @@ StageOwnError(i) ==
     /\ st[i] = "run" /\ shape[i] = "map" /\ held[i] = "data" /\ ch[i + 1] = "none"
     /\ ch' = [ch EXCEPT ![i + 1] = "err"]
     /\ held' = [held EXCEPT ![i] = "none"]
+    /\ UNCHANGED bag
     /\ st' = [st EXCEPT ![i] = "closing"]
     /\ drainer' = [drainer EXCEPT ![i] = TRUE]
     /\ UNCHANGED <<shape, nrows, failAt, scanPos, scanSt, closed, expSt, resCh, resClosed, hSt, cancelled, limitHit>>
@@ -116,53 +131,78 @@ StageOwnError(i) ==
 StageCloseAfterError(i) ==
     /\ st[i] = "closing" /\ ch[i + 1] = "none"
     /\ st' = [st EXCEPT ![i] = "done"] /\ closed' = [closed EXCEPT ![i + 1] = TRUE]
-    /\ UNCHANGED <<shape, nrows, failAt, scanPos, scanSt, held, ch, drainer, expSt, resCh, resClosed, hSt, cancelled, limitHit>>
+    /\ UNCHANGED <<shape, nrows, failAt, scanPos, scanSt, held, bag, ch, drainer, expSt, resCh, resClosed, hSt, cancelled, limitHit>>
+
+\* ---- a holding stage: keeps every message until the upstream has closed, then sends them on in any order
+HoldRecv(i) ==
+    /\ shape[i] = "hold" /\ st[i] = "run" /\ ch[i] # "none"
+    /\ bag' = [bag EXCEPT ![i][ch[i]] = @ + 1]
+    /\ ch' = [ch EXCEPT ![i] = "none"]
+    /\ UNCHANGED <<shape, nrows, failAt, scanPos, scanSt, st, held, closed, drainer, expSt, resCh, resClosed, hSt, cancelled, limitHit>>
+
+HoldEmit(i) ==
+    /\ shape[i] = "hold" /\ st[i] = "run" /\ ch[i] = "none" /\ closed[i] /\ ch[i + 1] = "none"
+    /\ \E m \in {"data", "err"} :
+        /\ bag[i][m] > 0
+        /\ bag' = [bag EXCEPT ![i][m] = @ - 1]
+        /\ ch' = [ch EXCEPT ![i + 1] = m]
+    /\ UNCHANGED <<shape, nrows, failAt, scanPos, scanSt, st, held, closed, drainer, expSt, resCh, resClosed, hSt, cancelled, limitHit>>
+
+HoldFinish(i) ==
+    /\ shape[i] = "hold" /\ st[i] = "run" /\ ch[i] = "none" /\ closed[i] /\ ch[i + 1] = "none"
+    /\ bag[i].data = 0 /\ bag[i].err = 0
+    /\ st' = [st EXCEPT ![i] = "done"]
+    /\ closed' = [closed EXCEPT ![i + 1] = TRUE]
+    /\ UNCHANGED <<shape, nrows, failAt, scanPos, scanSt, held, bag, ch, drainer, expSt, resCh, resClosed, hSt, cancelled, limitHit>>
 
 Drain(i) ==
     /\ drainer[i] /\ ch[i] # "none"
     /\ ch' = [ch EXCEPT ![i] = "none"]
-    /\ UNCHANGED <<shape, nrows, failAt, scanPos, scanSt, st, held, closed, drainer, expSt, resCh, resClosed, hSt, cancelled, limitHit>>
+    /\ UNCHANGED <<shape, nrows, failAt, scanPos, scanSt, st, held, bag, closed, drainer, expSt, resCh, resClosed, hSt, cancelled, limitHit>>
 
 \* ---- exporter goroutine: reads channel N+1, writes to the response channel
 ExportRecv ==
     /\ expSt = "run" /\ ch[N + 1] # "none" /\ resCh = "none"
     /\ resCh' = ch[N + 1]
     /\ ch' = [ch EXCEPT ![N + 1] = "none"]
-    /\ expSt' = IF ch[N + 1] = "err" THEN "closing" ELSE "run"      \* on error: write the tail and return (no drain)
-    /\ UNCHANGED <<shape, nrows, failAt, scanPos, scanSt, st, held, closed, drainer, resClosed, hSt, cancelled, limitHit>>
+    /\ expSt' = IF ch[N + 1] = "err" THEN "closing" ELSE "run"      \* on error: write the tail and return
+    /\ drainer' = IF ch[N + 1] = "err" /\ ExportDrainsOnError THEN [drainer EXCEPT ![N + 1] = TRUE] ELSE drainer
+    /\ UNCHANGED <<shape, nrows, failAt, scanPos, scanSt, st, held, bag, closed, resClosed, hSt, cancelled, limitHit>>
 
 ExportFinish ==
     /\ \/ expSt = "run" /\ ch[N + 1] = "none" /\ closed[N + 1]
        \/ expSt = "closing"
     /\ resCh = "none"
     /\ expSt' = "done" /\ resClosed' = TRUE
-    /\ UNCHANGED <<shape, nrows, failAt, scanPos, scanSt, st, held, ch, closed, drainer, resCh, hSt, cancelled, limitHit>>
+    /\ UNCHANGED <<shape, nrows, failAt, scanPos, scanSt, st, held, bag, ch, closed, drainer, resCh, hSt, cancelled, limitHit>>
 
 \* ---- handler
 HandlerRecv ==
     /\ hSt = "run" /\ resCh # "none"
     /\ resCh' = "none"
-    /\ UNCHANGED <<shape, nrows, failAt, scanPos, scanSt, st, held, ch, closed, drainer, expSt, resClosed, hSt, cancelled, limitHit>>
+    /\ UNCHANGED <<shape, nrows, failAt, scanPos, scanSt, st, held, bag, ch, closed, drainer, expSt, resClosed, hSt, cancelled, limitHit>>
 
 HandlerFinish ==
     /\ hSt = "run" /\ resCh = "none" /\ resClosed
     /\ hSt' = "done"
-    /\ UNCHANGED <<shape, nrows, failAt, scanPos, scanSt, st, held, ch, closed, drainer, expSt, resCh, resClosed, cancelled, limitHit>>
+    /\ UNCHANGED <<shape, nrows, failAt, scanPos, scanSt, st, held, bag, ch, closed, drainer, expSt, resCh, resClosed, cancelled, limitHit>>
 
 \* ---- environment: the client goes away (request context cancelled)
 ClientGone ==
     /\ ~cancelled /\ cancelled' = TRUE
-    /\ UNCHANGED <<shape, nrows, failAt, scanPos, scanSt, st, held, ch, closed, drainer, expSt, resCh, resClosed, hSt, limitHit>>
+    /\ UNCHANGED <<shape, nrows, failAt, scanPos, scanSt, st, held, bag, ch, closed, drainer, expSt, resCh, resClosed, hSt, limitHit>>
 
 Next ==
     \/ ScanSend \/ ScanClose \/ ExportRecv \/ ExportFinish \/ HandlerRecv \/ HandlerFinish \/ ClientGone
     \/ \E i \in Stage : StageRecv(i) \/ StageSend(i) \/ StageFinish(i) \/ StageOwnError(i) \/ StageCloseAfterError(i)
+                        \/ HoldRecv(i) \/ HoldEmit(i) \/ HoldFinish(i)
     \/ \E i \in Chan : Drain(i)
 
 Fair ==
     /\ WF_vars(ScanSend) /\ WF_vars(ScanClose) /\ WF_vars(ExportRecv) /\ WF_vars(ExportFinish)
     /\ WF_vars(HandlerRecv) /\ WF_vars(HandlerFinish)
-    /\ \A i \in 1..3 : WF_vars(i \in Stage /\ (StageRecv(i) \/ StageSend(i) \/ StageFinish(i) \/ StageCloseAfterError(i)))
+    /\ \A i \in 1..3 : WF_vars(i \in Stage /\ (StageRecv(i) \/ StageSend(i) \/ StageFinish(i) \/ StageCloseAfterError(i)
+                                               \/ HoldRecv(i) \/ HoldEmit(i) \/ HoldFinish(i)))
     /\ \A i \in 1..4 : WF_vars(i \in Chan /\ Drain(i))
 Spec == Init /\ [][Next]_vars /\ Fair
 
